@@ -173,8 +173,8 @@ def run(ctx):
         if line['dom'] != 'V' or line['ran'] != 'V' or not line.get('supported', True):
             continue
         js = json.dumps(line['prog'])
-        if not any('"t": "%s"' % k in js for k in PROX_SUBST):
-            continue
+        if not any('"t": "%s"' % k in js for k in PROX_SUBST) or '"t": "swap"' in js:
+            continue        # wrappers around proximals only; "swap" is a deliberately non-alias-safe user operator
         for space in ((sp, spb) if (i + ctx.seed) % 7 == 0 else (sp,)):
             op = U.build(line['prog'], space, PROX_SUBST)
             x = space.point('V', line['pts'][0])
